@@ -2,6 +2,7 @@ package c10
 
 import (
 	"encoding/json"
+	"fmt"
 	"math"
 
 	"verifharness/internal/core"
@@ -442,9 +443,215 @@ func (g *gen) one(depth int) json.RawMessage {
 	return mk(t, v, self, via, "")
 }
 
+// ---- nesting depth ----
+//
+// ValueLit hands its options down with one more entry per nesting level, so what an element is rendered with can depend on
+// HOW DEEP its container sits (the variadic slice has spare capacity only at some levels: 3, 5-7, 9-15 ..).  The ladder puts
+// a container (slice, array, map value, map key, pointer) that directly holds a struct rendering no field at every level
+// 0..ladderDepth below the rendered value, under every kind of wrapper.
+
+const ladderDepth = 10
+
+// wrapper kinds of the levels above the container
+var ladderWraps = []string{"slice", "struct", "map", "ptr", "array", "struct2"}
+
+func wrapT(kind string, t TypeJ) TypeJ {
+	switch kind {
+	case "slice":
+		return sliceT(t)
+	case "array":
+		return arrayT(1, t)
+	case "map":
+		return mapT(sc("string"), t)
+	case "ptr":
+		if t.K == "ptr" {
+			return sliceT(t)
+		}
+		return ptrT(t)
+	case "struct2":
+		return structT(fld("N", sc("int")), fld("Next", t))
+	}
+	return structT(fld("Next", t))
+}
+
+func wrapV(t *TypeJ, v ValJ) ValJ {
+	switch t.K {
+	case "slice", "array":
+		return lval(v)
+	case "map":
+		return ValJ{M: [][2]ValJ{{sval("k"), v}}}
+	case "ptr":
+		return pval(v)
+	}
+	if len(t.Fields) == 2 {
+		return lval(ival(1), v)
+	}
+	return lval(v)
+}
+
+// the container of kind `bottom` holding zero and non-zero structs of type el, `depth` levels below the root; the wrappers
+// are taken from ladderWraps starting at `rot`
+func ladderCase(bottom string, el TypeJ, nz ValJ, depth, rot int) (TypeJ, ValJ) {
+	z := zeroVal(&el)
+	var t TypeJ
+	var v ValJ
+	switch bottom {
+	case "slice":
+		t, v = sliceT(el), lval(z, nz, z)
+	case "array":
+		t, v = arrayT(2, el), lval(nz, z)
+	case "map":
+		t, v = mapT(sc("string"), el), ValJ{M: [][2]ValJ{{sval("a"), z}, {sval("b"), nz}}}
+	case "mapkey":
+		t, v = mapT(el, sc("int")), ValJ{M: [][2]ValJ{{z, ival(1)}}}
+	default:
+		t, v = ptrT(el), pval(z)
+	}
+	for i := 0; i < depth; i++ {
+		t = wrapT(ladderWraps[(rot+i)%len(ladderWraps)], t)
+		v = wrapV(&t, v)
+	}
+	return t, v
+}
+
+// a tower: at every level a slice, a map and a pointer that hold zero structs, and the next level below a wrapper of kind `next`
+func tower(levels int, next string) (TypeJ, ValJ) {
+	in := nm("c10types.Inner")
+	zIn := zeroVal(&in)
+	t := structT(fld("S", sliceT(in)), fld("M", mapT(sc("string"), in)), fld("P", ptrT(in)))
+	v := lval(lval(zIn), ValJ{M: [][2]ValJ{{sval("a"), zIn}}}, pval(zIn))
+	for i := 0; i < levels; i++ {
+		nt := wrapT(next, t)
+		nv := wrapV(&nt, v)
+		t = structT(fld("S", sliceT(in)), fld("M", mapT(sc("string"), in)), fld("P", ptrT(in)), fld("Next", nt))
+		v = lval(lval(zIn, lval(ival(1), sval(""))), ValJ{M: [][2]ValJ{{sval("a"), zIn}}}, pval(zIn), nv)
+	}
+	return t, v
+}
+
+func ladder() []json.RawMessage {
+	in := nm("c10types.Inner")
+	pt := nm("image.Point")
+	anon := structT(fld("A", sc("int")), fld("In", in))
+	els := []struct {
+		t  TypeJ
+		nz ValJ
+	}{{in, lval(ival(1), sval("x"))}, {pt, lval(ival(0), ival(2))}, {anon, lval(ival(3), lval(ival(0), sval("")))}}
+	var out []json.RawMessage
+	k := 0
+	for depth := 0; depth <= ladderDepth; depth++ {
+		for _, bottom := range []string{"slice", "array", "map", "mapkey", "ptr"} {
+			el := els[k%len(els)]
+			if bottom == "mapkey" {
+				el = els[k%2] // the unnamed struct has a named field: fine as a key too, but keep the key texts simple
+			}
+			t, v := ladderCase(bottom, el.t, el.nz, depth, k)
+			self, via := selfMain, "value"
+			if k%2 == 1 {
+				self = selfTypes
+			}
+			if k%3 == 2 {
+				via = "sprintf"
+			}
+			out = append(out, mk(t, v, self, via, fmt.Sprintf("ladder: zero struct in a %s at depth %d", bottom, depth)))
+			k++
+		}
+	}
+	for i, next := range []string{"slice", "map", "ptr", "struct"} {
+		t, v := tower(ladderDepth, next)
+		self := selfMain
+		if i%2 == 1 {
+			self = selfTypes
+		}
+		out = append(out, mk(t, v, self, "value", "tower: zero structs in slice / map / pointer at every level, next level below a "+next))
+	}
+	return out
+}
+
+// a random chain of wrappers of the given depth above a container that holds structs, some of them zero
+func (g *gen) deep(depth int) json.RawMessage {
+	els := []TypeJ{nm("c10types.Inner"), nm("c10types.Point"), nm("image.Point"), nm("c10types.Node"),
+		structT(fld("A", g.scalarType())), structT(fld("In", nm("c10types.Inner")), fld("B", sc("bool")))}
+	el := core.Pick(g.r, els)
+	var t TypeJ
+	switch g.r.Intn(5) {
+	case 0:
+		t = sliceT(el)
+	case 1:
+		t = arrayT(1+g.r.Intn(2), el)
+	case 2:
+		t = mapT(g.keyType(0), el)
+	case 3:
+		t = ptrT(el)
+	default:
+		t = structT(fld("S", sliceT(el)), fld("M", mapT(sc("string"), el)), fld("P", ptrT(el)))
+	}
+	for i := 0; i < depth; i++ {
+		t = wrapT(core.Pick(g.r, ladderWraps), t)
+	}
+	v := g.deepVal(&t)
+	self := selfMain
+	if g.r.Chance(40) {
+		self = selfTypes
+	}
+	via := "value"
+	if g.r.Chance(30) {
+		via = "sprintf"
+	}
+	return mk(t, v, self, via, "")
+}
+
+// containers non-empty all the way down (so that the depth is reached); struct elements zero half of the time
+func (g *gen) deepVal(t *TypeJ) ValJ {
+	u := under(t)
+	switch u.K {
+	case "ptr":
+		return pval(g.deepVal(u.Elem))
+	case "slice":
+		n := 1 + g.r.Intn(2)
+		l := []ValJ{}
+		for i := 0; i < n; i++ {
+			l = append(l, g.deepVal(u.Elem))
+		}
+		return ValJ{L: l}
+	case "array":
+		l := []ValJ{}
+		for i := 0; i < u.N; i++ {
+			l = append(l, g.deepVal(u.Elem))
+		}
+		return ValJ{L: l}
+	case "map":
+		k := g.val(u.Key, 1)
+		return ValJ{M: [][2]ValJ{{k, g.deepVal(u.Elem)}}}
+	case "struct":
+		if t.K == "named" || !hasContainer(u) {
+			if g.r.Chance(50) {
+				return zeroVal(t)
+			}
+			return g.val(t, 2)
+		}
+		l := []ValJ{}
+		for i := range u.Fields {
+			l = append(l, g.deepVal(&u.Fields[i].T))
+		}
+		return ValJ{L: l}
+	}
+	return g.val(t, 1)
+}
+
+func hasContainer(u *TypeJ) bool {
+	for i := range u.Fields {
+		switch u.Fields[i].T.K {
+		case "ptr", "slice", "array", "map", "struct":
+			return true
+		}
+	}
+	return false
+}
+
 func generate(r *core.RNG, tier string) []json.RawMessage {
 	g := &gen{r: r}
-	out := corner()
+	out := append(corner(), ladder()...)
 	n := 260
 	if tier == "thorough" {
 		n = 6000
@@ -452,6 +659,10 @@ func generate(r *core.RNG, tier string) []json.RawMessage {
 	for i := 0; i < n; i++ {
 		if g.r.Chance(10) {
 			out = append(out, g.outside())
+			continue
+		}
+		if g.r.Chance(15) {
+			out = append(out, g.deep(g.r.Intn(ladderDepth+1)))
 			continue
 		}
 		out = append(out, g.one(1+g.r.Intn(4)))
